@@ -70,6 +70,8 @@ type FuncSpec struct {
 	Covers    []*Clause
 	Decreases []*Clause
 	Alias     string
+	Facts     []*Clause // fact EXPR: assumed about the closure value `self` when the literal escapes
+	ChanInvs  []*Clause // chaninv NAME EXPR (Clause.Mark = channel variable name)
 	EffectStruct string // for `effect fields`: the struct whose fields are listed (effectstruct NAME)
 }
 
@@ -127,7 +129,7 @@ func NewSpecDB() *SpecDB {
 var keywords = map[string]bool{"func": true, "callback": true, "method": true, "props": true, "requires": true,
 	"ensures": true, "onpanic": true, "loop": true, "at": true, "maypanic": true, "effect": true, "trusted": true,
 	"ghost": true, "axiom": true, "event": true, "guarded": true, "immutable": true, "lockinv": true, "level": true,
-	"inline": true, "def": true, "unlocked": true, "cover": true, "alias": true, "initwriter": true, "atomic": true, "effectstruct": true}
+	"inline": true, "def": true, "unlocked": true, "cover": true, "alias": true, "initwriter": true, "atomic": true, "effectstruct": true, "chaninv": true, "fact": true}
 
 var reLabel = regexp.MustCompile(`^\[([^\]]+)\]\s*`)
 var reProps = regexp.MustCompile(`^\{([^}]*)\}\s*`)
@@ -210,6 +212,20 @@ func (db *SpecDB) LoadFile(path string) error {
 			cur.Unlocked = true
 		case "alias":
 			cur.Alias = strings.TrimSpace(rest)
+		case "fact":
+			c, err := parseClause("fact", rest, pos)
+			if err != nil {
+				return fail(err)
+			}
+			cur.Facts = append(cur.Facts, c)
+		case "chaninv":
+			nm, r2 := splitWord(rest)
+			c, err := parseClause("chaninv", r2, pos)
+			if err != nil {
+				return fail(err)
+			}
+			c.Mark = nm
+			cur.ChanInvs = append(cur.ChanInvs, c)
 		case "effectstruct":
 			cur.EffectStruct = strings.TrimSpace(rest)
 		case "effect":
@@ -257,12 +273,12 @@ func (db *SpecDB) LoadFile(path string) error {
 				return fail(fmt.Errorf("unknown loop clause %q", sub))
 			}
 		case "at":
-			mark, r2 := splitWord(rest)
-			sub, r3 := splitWord(r2)
-			if sub != "assert" {
-				return fail(fmt.Errorf("expected assert"))
+			k := strings.Index(rest, " assert ")
+			if k < 0 {
+				return fail(fmt.Errorf("expected `at MARK assert EXPR`"))
 			}
-			c, err := parseClause("assert", r3, pos)
+			mark := strings.TrimSpace(rest[:k])
+			c, err := parseClause("assert", rest[k+len(" assert "):], pos)
 			if err != nil {
 				return fail(err)
 			}
